@@ -171,8 +171,26 @@ class CallMixin:
     def call_value(self, fv, args, kwargs, node):
         fv = self.resolve(fv)
         if isinstance(fv, FuncV):
+            if getattr(fv, 'memo', None) is not None:
+                # functools.lru_cache / cache: one result object per distinct argument tuple, shared by all callers
+                try:
+                    ck = ('lru', fv.fi.qualname, tuple(self.py_key(a) for a in args), tuple(sorted((k, self.py_key(v)) for k, v in kwargs.items())))
+                    hash(ck)
+                except TypeError:
+                    ck = None
+                if ck is not None and all(x is not None for x in ck[2]) and all(v is not None for _k, v in ck[3]):
+                    if ck not in self.modcache:
+                        r = self.call_value(fv.memo, args, kwargs, node)
+                        if isinstance(r, (DictV, ListV, ObjV)):
+                            r.tags = frozenset(r.tags) | {'global'}
+                            if isinstance(r, (DictV, ListV)):
+                                r.desc = f'cached result of {fv.fi.name}()'
+                        self.modcache[ck] = r
+                    return self.modcache[ck]
+                self.note_unknown(node, f'cached function {fv.fi.name} called with non-constant arguments')
+                return self.call_value(fv.memo, args, kwargs, node)
             return self.call_function(fv.fi, args, kwargs, self_obj=fv.self_obj, node=node, cls_obj=fv.cls_obj,
-                                      closure=getattr(fv, 'closure', None))
+                                      closure=getattr(fv, 'closure', None), raw=bool(getattr(fv, 'raw', False)))
         if isinstance(fv, ClassV):
             return self.instantiate(fv.ci, args, kwargs, node)
         if isinstance(fv, ExtV):
@@ -323,6 +341,23 @@ class CallMixin:
                 r = ext.e_struct_unpack(self, [recv.fmt] + list(args), kwargs, node)
                 self.event('ext-call', node, callee='struct.unpack', args=[recv.fmt] + list(args), kwargs=kwargs, result=r)
                 return r
+            if name == 'unpack_from' and args:
+                # unpack_from(buffer, offset=0): the first `size` bytes from offset (struct.error when fewer are there)
+                import struct as _struct
+                fmt = self.py_key(recv.fmt)
+                off = self.as_lin(args[1] if len(args) > 1 else kwargs.get('offset', IntV(0)))
+                buf = self.resolve(args[0])
+                if isinstance(fmt, (str, bytes)) and off is not None and isinstance(buf, SeqV) and buf.kind == 'bytes':
+                    size = _struct.calcsize(fmt)
+                    if not self.store.prove_ge0(buf.length() - off - size):
+                        self.may_raise(_struct.error, node, f'unpack_from needs {size} bytes at offset {off}',
+                                       wire='wire' in value_tags(buf))
+                        self.assume_ge0(buf.length() - off - size)
+                    part = seqops.slice_seq(self, buf, off, off + size)
+                    self.event('slice', node, obj=buf, lo=off, hi=off + size, result=part)
+                    r = ext.e_struct_unpack(self, [recv.fmt, part], {}, node)
+                    self.event('ext-call', node, callee='struct.unpack', args=[recv.fmt, part], kwargs={}, result=r)
+                    return r
         elif isinstance(recv, TupleV):
             f = None
             if name == '_replace' and getattr(recv, 'names', None) and not args and all(k in recv.names for k in kwargs):
@@ -505,12 +540,23 @@ def b_int(it, args, kwargs, node):
         if ln.is_const() and ln.c >= 1 and ln.c <= 64:
             hi = base ** ln.c - 1
             lo = 0 if safe else -(base ** (ln.c - 1) - 1)
-        elif safe:
-            lo = 0
+        else:
+            # a text of at most h characters: at most h digits, or a sign and h-1 digits
             h = it.store.hi(ln)
-            if h is not None and h <= 64:
+            if h is None:
+                # a slice clamped by the end of the data: its length is bounded by a relation between symbols
+                h = next((k for k in (1, 2, 3, 4, 6, 8, 12, 16, 19) if it.store.prove_ge0(Lin.const(k) - ln)), None)
+            if safe:
+                lo = 0
+            if h is not None and 1 <= h <= 64:
                 hi = base ** h - 1
+                if not safe:
+                    lo = -(base ** (h - 1) - 1)
         it.store.declare(s, lo, hi, info=f'int({_short(v)}, {base})')
+        if any(not isinstance(g, (Sl, Lit)) for g in v.segs):
+            # the text was computed (zfill, a numeral of unknown value, an opaque conversion ...): the number it denotes is a
+            # function of other values that is not written down, so it cannot be chosen freely in a witness
+            it.store.__dict__.setdefault('opaque', set()).add(s)
         r = IntV(Lin.sym(s), tags | ({'wire-int'} if wire else set()))
         it.origin[s] = ('int', v, base)
         return r
